@@ -36,6 +36,9 @@ class GenError(Exception):
     pass
 
 
+NOTCONST = object()
+
+
 def need(c, msg, node=None):
     if not c:
         where = " (line %s)" % getattr(node, "lineno", "?") if node is not None else ""
@@ -71,6 +74,21 @@ SPEC = [
     ("admin.ledger_utils", None, ["encode_eth_message"]),
     ("admin.signer_authorization", "SignerVersion", ["__init__", "msg", "get_authorization_msg", "to_dict"]),
 ]
+
+# second backend: functions that talk to the device / carry manager state, translated into the device monad
+# of Model/ValM.v (module MV): (module, class, [method names])
+SPEC_M = [
+    ("ledger.hsm2dongle", "HSM2Dongle", [
+        "get_current_mode", "is_onboarded", "echo", "get_version", "get_retries", "get_signer_parameters",
+        "exit_menu", "exit_app", "get_public_key", "send_command", "sign_unauthorized",
+        "_send_data_in_chunks"]),
+]
+# exception classes of the middleware: Python class name -> constructor of Model/Device.v's exn
+XEXC = {"HSM2DongleError": "DongleError", "HSM2DongleTimeoutError": "DongleTimeout",
+        "HSM2DongleCommError": "DongleComm", "HSM2ProtocolError": "ProtocolError",
+        "HSM2ProtocolInterrupt": "ProtocolInterrupt"}
+XCLS = {"HSM2DongleError", "HSM2DongleTimeoutError", "HSM2DongleCommError", "HSM2DongleErrorResult",
+        "HSM2DongleBaseError"}
 
 EXC = {"ValueError": "ValueError", "TypeError": "TypeError", "IndexError": "IndexError",
        "OverflowError": "OverflowError", "KeyError": "KeyError", "NotImplementedError": "NotImplementedErr",
@@ -163,7 +181,10 @@ def find_method(cls):
 
 
 class Gen:
-    def __init__(self):
+    def __init__(self, backend="P", pure=None):
+        self.backend = backend  # "P": pure kit (Py/Val.v) ; "M": device monad (Model/ValM.v, module MV)
+        self.pure = pure        # the pure generator, for calls from monadic code into pure translated code
+        self.prefix = "src_" if backend == "P" else "srcm_"
         self.defs = []          # (coq name, text) in emission order
         self.done = {}          # key -> coq name
         self.in_progress = set()
@@ -176,7 +197,7 @@ class Gen:
             return self.done[key]
         m = module(modname)
         need(fname in m.funcs, "no function %s in %s" % (fname, modname))
-        coqname = "src_%s__%s" % (ident(modname), fname)
+        coqname = "%s%s__%s" % (self.prefix, ident(modname), fname)
         self._translate(key, coqname, m, None, m.funcs[fname], has_self=False)
         return coqname
 
@@ -187,7 +208,7 @@ class Gen:
         meths = find_method(cls)
         need(mname in meths, "no method %s in %s" % (mname, cls.__name__))
         _, fd, m = meths[mname]
-        coqname = "src_%s__%s" % (cls.__name__, mname)
+        coqname = "%s%s__%s" % (self.prefix, cls.__name__, mname)
         self._translate(key, coqname, m, cls, fd, has_self=True)
         return coqname
 
@@ -199,7 +220,8 @@ class Gen:
         params = " ".join("(%s : pv)" % p for p in t.coq_params)
         t.extra_params.sort(key=EXTRA_ORDER.index)
         extra = "".join(" (%s : %s)" % (p, EXTRA_TYPES[p]) for p in t.extra_params)
-        text = "Definition %s%s %s : pr pv :=\n%s." % (coqname, extra, params, textwrap.indent(body, "  "))
+        text = "Definition %s%s %s : %s pv :=\n%s." % (coqname, extra, params, "pr" if self.backend == "P" else "pm",
+                                                     textwrap.indent(body, "  "))
         self.in_progress.discard(key)
         self.done[key] = coqname
         self.defs.append((coqname, text))
@@ -303,6 +325,9 @@ class FuncTr:
         if any(isinstance(d, ast.Name) and d.id == "staticmethod" for d in fd.decorator_list):
             has_self = self.has_self = False
         self.local_funcs = {}
+        self.M = gen.backend == "M"
+        self.excvars = set()     # names bound by `except ... as e` (monadic backend: Coq variables of type exn)
+        self.ret_stack = []
         self.loop_tups = []
         self.selfname = self.params[0] if has_self else None
         self.coq_params = [self.v(p) for p in self.params]
@@ -340,7 +365,8 @@ class FuncTr:
             self.local_funcs[st.name] = st
             return self.stmts(rest, k, ret)
         if isinstance(st, ast.Raise):
-            return "PRaise %s" % self.exc_of(st)
+            x = self.exc_of(st)
+            return ("PRaiseX %s" % x[2:]) if x.startswith("@X") else ("PRaise %s" % x)
         if isinstance(st, ast.Expr):
             if self.is_log_call(st.value):
                 return self.stmts(rest, k, ret)
@@ -380,6 +406,8 @@ class FuncTr:
             return self.while_(st, rest, k, ret)
         if isinstance(st, ast.Break):
             need(self.loop_tups, "break outside a translated while loop", st)
+            if self.loop_tups[-1].startswith("@M"):
+                return "POk (VList [VInt 1%%Z; %s])" % self.loop_tups[-1][2:]
             return "POk (VList [VBool false; %s])" % self.loop_tups[-1]
         if isinstance(st, ast.Try):
             return self.try_(st, rest, k, ret)
@@ -426,7 +454,46 @@ class FuncTr:
         finally:
             pass
 
+    def try_m(self, st, kk, ret):
+        """monadic backend: any mix of returning / falling-through bodies and handlers; results are tagged
+        [VInt 2; value] = return from the function, [VInt 1; state] = fell through"""
+        need(len(st.handlers) == 1, "more than one handler", st)
+        h = st.handlers[0]
+        catch_all, pats = False, []
+        tys = [] if h.type is None else (h.type.elts if isinstance(h.type, ast.Tuple) else [h.type])
+        if h.type is None:
+            catch_all = True
+        for t in tys:
+            need(isinstance(t, ast.Name), "handler type", h)
+            if t.id in ("Exception", "BaseException"):
+                catch_all = True
+            elif t.id in EXC:
+                pats.append("XPy %s" % EXC[t.id])
+            elif t.id in XCLS:
+                pats.append("XCls EXC_%s" % t.id)
+            else:
+                need(False, "exception class %s" % t.id, h)
+        names = assigned_names(st.body) + [n for n in assigned_names(h.body) if n not in assigned_names(st.body)]
+        tup = "VList [%s]" % "; ".join(self.v(n) for n in names)
+        init_missing = [n for n in names if n not in self.bound_before(st)]
+
+        def tag_ret(e):
+            return "pbind (%s) (fun rv_ => POk (VList [VInt 2%%Z; rv_]))" % e
+        fall = "POk (VList [VInt 1%%Z; %s])" % tup
+        pre = "".join("pbind (POk VNone) (fun %s =>\n" % self.v(n) for n in init_missing)
+        post = ")" * len(init_missing)
+        body = self.stmts(st.body, fall, tag_ret)
+        if h.name:
+            self.excvars.add(h.name)
+        hand = self.stmts(h.body, fall, tag_ret)
+        return ("%sptry_k (%s) %s [%s]\n  (fun e_%s => %s)\n  (fun r_ => match r_ with\n"
+                "   | VList [VInt 2%%Z; rv_] => %s\n   | VList [VInt 1%%Z; %s] => %s\n   | _ => PStuck end)%s"
+                % (pre, body, "true" if catch_all else "false", "; ".join(pats), ident(h.name or ""), hand,
+                   ret("POk rv_"), tup, kk, post))
+
     def try_inner(self, st, kk, ret):
+        if self.M:
+            return self.try_m(st, kk, ret)
         # handlers: class lists
         hs = []
         for h in st.handlers:
@@ -480,7 +547,27 @@ class FuncTr:
         b = self.bound_before(st)
         return "VList [%s]" % "; ".join(self.v(n) if n in b else "VNone" for n in names)
 
+    def while_m(self, st, rest, k, ret):
+        need(not st.orelse and not contains_at_level(st.body, (ast.Continue,)), "while-else / continue", st)
+        names = assigned_names(st.body)
+        tup = "VList [%s]" % "; ".join(self.v(n) for n in names)
+        init = self.init_tuple(names, st)
+        if "fuel_" not in self.extra_params:
+            self.extra_params.append("fuel_")
+        self.loop_tups.append("@M" + tup)
+        body = self.stmts(st.body, "POk (VList [VInt 0%%Z; %s])" % tup,
+                          lambda e: "pbind (%s) (fun rv_ => POk (VList [VInt 2%%Z; rv_]))" % e)
+        self.loop_tups.pop()
+        if not (isinstance(st.test, ast.Constant) and st.test.value is True):
+            body = "pif (%s)\n  (%s)\n  (POk (VList [VInt 1%%Z; %s]))" % (self.expr(st.test), body, tup)
+        kk = self.stmts(rest, k, ret)
+        return ("pbind (py_while fuel_ (%s) (fun st_ => match st_ with %s =>\n%s\n | _ => PStuck end))\n"
+                "  (fun r_ => match r_ with\n   | VList [VInt 2%%Z; rv_] => %s\n   | VList [VInt 1%%Z; %s] =>\n%s\n"
+                "   | _ => PStuck end)" % (init, tup, body, ret("POk rv_"), tup, kk))
+
     def while_(self, st, rest, k, ret):
+        if self.M:
+            return self.while_m(st, rest, k, ret)
         need(isinstance(st.test, ast.Constant) and st.test.value is True and not st.orelse,
              "while loop that is not `while True:`", st)
         need(not contains(st.body, (ast.Return, ast.Continue)), "return / continue inside a while loop", st)
@@ -519,6 +606,8 @@ class FuncTr:
         if isinstance(e, ast.Call):
             need(all(self.safe_arg(a) for a in e.args) and not e.keywords, "exception arguments", st)
             e = e.func
+        if self.M and isinstance(e, ast.Name) and e.id in XEXC:
+            return "@X" + XEXC[e.id]
         need(isinstance(e, ast.Name) and e.id in EXC, "raised class", st)
         return EXC[e.id]
 
@@ -545,11 +634,17 @@ class FuncTr:
         if isinstance(a, ast.JoinedStr):
             return all(isinstance(v, ast.Constant) or (isinstance(v, ast.FormattedValue) and self.safe_arg(v.value))
                        for v in a.values)
-        if isinstance(a, ast.Call) and isinstance(a.func, ast.Name) and a.func.id in ("str", "len", "format", "repr"):
+        if isinstance(a, ast.Call) and isinstance(a.func, ast.Name) and \
+                a.func.id in ("str", "len", "format", "repr", "hex", "list", "map", "type"):
             return all(self.safe_arg(x) for x in a.args)
+        if isinstance(a, ast.IfExp):
+            return self.safe_arg(a.test) and self.safe_arg(a.body) and self.safe_arg(a.orelse)
+        if isinstance(a, ast.BinOp) and isinstance(a.op, ast.Add):
+            return self.safe_arg(a.left) and self.safe_arg(a.right)
         if isinstance(a, ast.Subscript):
             return self.safe_arg(a.value)
-        if isinstance(a, ast.Call) and isinstance(a.func, ast.Attribute) and a.func.attr in ("hex",) and not a.args:
+        if isinstance(a, ast.Call) and isinstance(a.func, ast.Attribute) and \
+                a.func.attr in ("hex", "capitalize", "lower", "upper") and not a.args:
             return self.safe_arg(a.func.value)
         return False
 
@@ -612,8 +707,37 @@ class FuncTr:
             return None
         return const_val(val)
 
+    def chain_const(self, e):
+        """self.A.B... (attributes only) evaluated on the concrete class; returns the Python object or a marker"""
+        names = []
+        cur = e
+        while isinstance(cur, ast.Attribute):
+            names.append(cur.attr)
+            cur = cur.value
+        if not (isinstance(cur, ast.Name) and cur.id == self.selfname and self.cls is not None and len(names) >= 1):
+            return NOTCONST
+        obj = self.cls
+        for n in reversed(names):
+            try:
+                obj = inspect.getattr_static(obj, n) if obj is self.cls else getattr(obj, n)
+            except AttributeError:
+                return NOTCONST
+            if isinstance(obj, (staticmethod, classmethod, property)) or inspect.isfunction(obj):
+                return NOTCONST
+        return obj
+
     def value_of(self, e):
         """Text of type pv if e is a value needing no evaluation (constant, variable, type name)."""
+        if isinstance(e, ast.Attribute):
+            import enum
+            obj = self.chain_const(e)
+            if obj is not NOTCONST:
+                if isinstance(obj, enum.Enum) and isinstance(obj.value, int):
+                    return const_val(int(obj.value))
+                if isinstance(obj, (bool, int, str, bytes)) or obj is None:
+                    c = const_val(int(obj) if isinstance(obj, int) and not isinstance(obj, bool) else obj)
+                    if c is not None:
+                        return c
         if isinstance(e, ast.Constant):
             c = const_val(e.value)
             need(c is not None, "constant %r" % (e.value,), e)
@@ -630,6 +754,7 @@ class FuncTr:
             if e.id in TYPES:
                 return "(VType %s)" % TYPES[e.id]
             need(e.id not in self.opaque, "formatted text %s used as a value" % e.id, e)
+            need(e.id not in self.excvars, "exception object %s used as a value" % e.id, e)
             if e.id in self.params or True:
                 return self.v(e.id)
         if isinstance(e, ast.Attribute) and isinstance(e.value, ast.Name) and e.value.id == self.selfname:
@@ -706,6 +831,9 @@ class FuncTr:
             need(fn and not self.is_opaque_expr(e), "binary operator", e)
             return self.binds([e.left, e.right], lambda n: "%s %s %s" % (fn, n[0], n[1]))
         if isinstance(e, ast.Attribute):
+            if self.M and isinstance(e.value, ast.Name) and e.value.id in self.excvars:
+                need(e.attr == "error_code", "attribute %s of an exception object" % e.attr, e)
+                return "m_error_code e_%s" % ident(e.value.id)
             if isinstance(e.value, ast.Name) and e.value.id == self.selfname and self.cls is not None:
                 special = self.special_attr(e.attr)
                 if special:
@@ -836,8 +964,46 @@ class FuncTr:
                 res.append(dmap[p])
         return res
 
+    def call_m(self, e):
+        """calls that only the monadic backend knows; None = not one of them"""
+        f = e.func
+        if isinstance(f, ast.Attribute) and isinstance(f.value, ast.Name) and f.value.id == self.selfname:
+            if f.attr == "_send_command":
+                need(1 <= len(e.args) <= 3 and all(k_.arg == "timeout" for k_ in e.keywords), "_send_command call", e)
+                args = list(e.args[:2])
+                if len(args) == 1:
+                    return self.binds(args, lambda a: "m_send_command %s (VBytes [])" % a[0])
+                return self.binds(args, lambda a: "m_send_command %s %s" % (a[0], a[1]))
+        if isinstance(f, ast.Attribute):
+            import enum
+            obj = self.chain_const(f)
+            if obj is not NOTCONST and isinstance(obj, type) and issubclass(obj, enum.Enum) and len(e.args) == 1:
+                vals = [int(m_.value) for m_ in obj]
+                return self.binds(e.args, lambda a: "py_enum_of [%s] %s" % ("; ".join("(%d)%%Z" % v for v in vals), a[0]))
+            # ClassName.staticmethod(...) of a class of the repository: pure code
+            if isinstance(f.value, ast.Name):
+                cls = None
+                if f.value.id in self.m.classes:
+                    cls = getattr(self.m.mod, f.value.id)
+                elif f.value.id in self.m.imports and \
+                        self.m.imports[f.value.id][1] in module(self.m.imports[f.value.id][0]).classes:
+                    cls = getattr(module(self.m.imports[f.value.id][0]).mod, self.m.imports[f.value.id][1])
+                if cls is not None and isinstance(inspect.getattr_static(cls, f.attr, None), staticmethod):
+                    fn = self.G().method(cls, f.attr)
+                    meths = find_method(cls)
+                    args = self.resolve_callee_args(meths[f.attr][1], e, False)
+                    ex = "".join(" " + x for x in self.pass_extra(fn, self.G()))
+                    return self.binds(args, lambda a: self.L("%s%s %s" % (fn, ex, " ".join(a))))
+        if isinstance(f, ast.Name) and f.id == "bytes" and len(e.args) == 1 and not e.keywords:
+            return self.binds(e.args, lambda a: "py_bytes %s" % a[0])
+        return None
+
     def call(self, e):
         f = e.func
+        if self.M:
+            r = self.call_m(e)
+            if r is not None:
+                return r
         # builtins
         if isinstance(f, ast.Name):
             n = f.id
@@ -869,20 +1035,20 @@ class FuncTr:
                 return self.binds([mp.args[1]], lambda a: "py_list_map (%s) %s" % (fn, a[0]))
             # functions of the same module / imported from the repository
             if n in self.m.funcs:
-                fn = self.gen.function(self.m.name, n)
+                fn = self.G().function(self.m.name, n)
                 args = self.resolve_callee_args(self.m.funcs[n], e, False)
                 self.note_call(fn, args)
-                ex = "".join(" " + x for x in self.pass_extra(fn))
-                return self.binds(args, lambda a: "%s%s %s" % (fn, ex, " ".join(a)))
+                ex = "".join(" " + x for x in self.pass_extra(fn, self.G()))
+                return self.binds(args, lambda a: self.L("%s%s %s" % (fn, ex, " ".join(a))))
             if n in self.m.imports:
                 mod2, name2 = self.m.imports[n]
                 m2 = module(mod2)
                 if name2 in m2.funcs:
-                    fn = self.gen.function(mod2, name2)
+                    fn = self.G().function(mod2, name2)
                     args = self.resolve_callee_args(m2.funcs[name2], e, False)
                     self.note_call(fn, args)
-                    ex = "".join(" " + x for x in self.pass_extra(fn))
-                    return self.binds(args, lambda a: "%s%s %s" % (fn, ex, " ".join(a)))
+                    ex = "".join(" " + x for x in self.pass_extra(fn, self.G()))
+                    return self.binds(args, lambda a: self.L("%s%s %s" % (fn, ex, " ".join(a))))
                 if name2 in m2.classes:
                     return self.construct(getattr(m2.mod, name2), e)
             if n in self.m.classes:
@@ -932,8 +1098,8 @@ class FuncTr:
                  "mutating / keyword method call .%s" % f.attr, e)
             if "call_method_" not in self.extra_params:
                 self.extra_params.append("call_method_")
-            return self.binds([f.value] + list(e.args), lambda a: "call_method_ %s %s [%s]" % (
-                coq_string(f.attr), a[0], "; ".join(a[1:])))
+            return self.binds([f.value] + list(e.args), lambda a: self.L("call_method_ %s %s [%s]" % (
+                coq_string(f.attr), a[0], "; ".join(a[1:]))))
         if isinstance(f, ast.Subscript) and isinstance(f.value, ast.Attribute) and isinstance(f.value.value, ast.Name) \
                 and f.value.value.id == self.selfname and self.cls is not None and len(e.args) == 1:
             if f.value.attr == "_validation_mappings":
@@ -959,8 +1125,15 @@ class FuncTr:
             return vals
         return None
 
-    def pass_extra(self, fn):
-        ex = getattr(self.gen, "extra", {}).get(fn, [])
+    def G(self):
+        """generator for code that is pure even when called from monadic code"""
+        return self.gen.pure if self.M else self.gen
+
+    def L(self, text):
+        return ("lift (%s)" % text) if self.M else text
+
+    def pass_extra(self, fn, g=None):
+        ex = getattr(g or self.gen, "extra", {}).get(fn, [])
         for p in ex:
             if p not in self.extra_params:
                 self.extra_params.append(p)
@@ -969,10 +1142,10 @@ class FuncTr:
     def construct(self, cls, e):
         meths = find_method(cls)
         need("__init__" in meths, "constructor of %s" % cls.__name__, e)
-        fn = self.gen.method(cls, "__init__")
+        fn = self.G().method(cls, "__init__")
         args = self.resolve_callee_args(meths["__init__"][1], e, True)
-        ex = "".join(" " + x for x in self.pass_extra(fn))
-        return self.binds(args, lambda a: '%s%s (VObj "%s" []) %s' % (fn, ex, cls.__name__, " ".join(a)))
+        ex = "".join(" " + x for x in self.pass_extra(fn, self.G()))
+        return self.binds(args, lambda a: self.L('%s%s (VObj "%s" []) %s' % (fn, ex, cls.__name__, " ".join(a))))
 
     def callable_text(self, fx, e):
         """A one-argument callable used with map(): a class of the repository or a lambda."""
@@ -1019,6 +1192,17 @@ Open Scope N_scope.
 """
 
 
+HEADER_M = """(* GENERATED by tools/gen_src.py (device-monad backend) from the Python source text of /repo on every run.
+   Do not edit.  Same translation scheme as Gen/Src.v, but every operation is the monadic namesake of
+   Model/ValM.v (module MV): device exchanges, manager state and the middleware's own exception classes. *)
+From PowHsm Require Export Gen.Src Model.ValM.
+Import MV.
+Open Scope string_scope.
+Open Scope list_scope.
+Open Scope N_scope.
+"""
+
+
 def write_if_changed(path, content):
     try:
         if open(path).read() == content:
@@ -1051,16 +1235,37 @@ def main():
                 g.in_progress.clear()
                 failures.append({"module": modname, "class": clsname, "function": n,
                                  "error": "%s: %s" % (type(ex).__name__, ex)})
+    # second backend: device-monad code (may request further pure definitions, so it runs before Src.v is written)
+    gm = Gen(backend="M", pure=g)
+    for modname, clsname, names in SPEC_M:
+        for n in names:
+            try:
+                m = module(modname)
+                gm.method(getattr(m.mod, clsname), n)
+            except GenError as ex:
+                gm.in_progress.clear()
+                g.in_progress.clear()
+                failures.append({"module": modname, "class": clsname, "function": n, "error": str(ex), "backend": "M"})
+            except Exception as ex:
+                gm.in_progress.clear()
+                g.in_progress.clear()
+                failures.append({"module": modname, "class": clsname, "function": n,
+                                 "error": "%s: %s" % (type(ex).__name__, ex), "backend": "M"})
     text = HEADER + "\n" + "\n\n".join(t for _, t in g.defs) + "\n"
     os.makedirs(OUT, exist_ok=True)
     changed = write_if_changed(os.path.join(OUT, "Src.v"), text)
+    textm = HEADER_M + "\n" + "\n\n".join(t for _, t in gm.defs) + "\n"
+    changed = write_if_changed(os.path.join(OUT, "SrcM.v"), textm) or changed
+    for m_ in gm.manifest:
+        m_["backend"] = "M"
     write_if_changed(os.path.join(OUT, "Src.manifest.json"),
-                     json.dumps({"translated": g.manifest, "failed": failures}, indent=1))
+                     json.dumps({"translated": g.manifest + gm.manifest, "failed": failures}, indent=1))
     for f in failures:
         print("GEN-ERROR (source translator): %s.%s%s: %s" % (
             f["module"], (f["class"] + ".") if f["class"] else "", f["function"], f["error"]))
-    print("gen_src: %d definitions from %d source functions, %d not translatable (%s)" % (
-        len(g.defs), len(g.manifest), len(failures), "rewritten" if changed else "unchanged"))
+    print("gen_src: %d + %d definitions from %d + %d source functions, %d not translatable (%s)" % (
+        len(g.defs), len(gm.defs), len(g.manifest), len(gm.manifest), len(failures),
+        "rewritten" if changed else "unchanged"))
 
 
 if __name__ == "__main__":
